@@ -66,6 +66,9 @@ type simWriter struct {
 	fired    bool
 	accepted int // bytes accepted before the fault fired
 	sticky   bool
+	digest   bool // the output exceeded writerKeep: only n and h are kept
+	n        int
+	h        uint64
 }
 
 func (w *simWriter) Write(p []byte) (int, error) {
@@ -92,8 +95,39 @@ func (w *simWriter) Write(p []byte) (int, error) {
 		}
 	}
 	w.calls++
+	if w.digest || len(w.buf)+len(p) > writerKeep {
+		// very large outputs (the dump of a deeply nested tree grows with the
+		// square of the depth) are kept as length + hash only
+		if !w.digest {
+			w.digest, w.h = true, 0xcbf29ce484222325
+			w.hash(w.buf)
+			w.n = len(w.buf)
+			w.buf = nil
+		}
+		w.hash(p)
+		w.n += len(p)
+		return len(p), nil
+	}
 	w.buf = append(w.buf, p...)
 	return len(p), nil
+}
+
+const writerKeep = 6 << 20
+
+func (w *simWriter) hash(p []byte) {
+	h := w.h
+	for _, c := range p {
+		h = (h ^ uint64(c)) * 0x100000001b3
+	}
+	w.h = h
+}
+
+// text is what the operation wrote, or a digest of it when it was very large.
+func (w *simWriter) text() string {
+	if w.digest {
+		return "<" + strconv.Itoa(w.n) + " bytes written, fnv64 " + strconv.FormatUint(w.h, 16) + ">"
+	}
+	return string(w.buf)
 }
 
 // ---------------------------------------------------------------- parse
@@ -201,7 +235,8 @@ type opResult struct {
 	prefix   int    // for a faulted operation: bytes accepted before the fault
 	faulted  bool
 	panicked bool
-	calls    int // Write calls made
+	calls    int  // Write calls made
+	digest   bool // out is a length + hash digest of a very large output, not the bytes
 }
 
 // doOp applies one read-only operation with a fresh visitor and a private
@@ -230,7 +265,12 @@ func doOp(kind string, root ast.Vertex, srcLen int, fault *scn.WFault) (res opRe
 				// the fault made the operation abort: only the prefix counts
 				res.faulted = true
 				res.prefix = w.accepted
-				res.out = string(w.buf)
+				res.out = w.text()
+				res.digest = w.digest
+				res.digest = w.digest
+				if w.digest {
+					res.prefix = 0
+				}
 				return
 			}
 			res.out = panicText(r)
@@ -263,7 +303,8 @@ func doOp(kind string, root ast.Vertex, srcLen int, fault *scn.WFault) (res opRe
 	default:
 		panic("harness: unknown op " + kind)
 	}
-	res.out = string(w.buf)
+	res.out = w.text()
+	res.digest = w.digest
 	if w.fired {
 		res.faulted = true
 		res.prefix = w.accepted
